@@ -4,10 +4,45 @@ from .common import TB_COMMON
 PROPS = {}
 
 THEOREMS = [
+    "pool_no_panic",
+    "pools_refine_spec",
+    "reachable_related",
+    "indexes_consistent",
+    "prune_exact",
+    "prune_saturates",
+    "search_complete",
+    "search_complete_unfiltered",
+    "first_aggregate_searchable",
+    "accepted_attester_slashing_listed",
+    "accepted_proposer_slashing_listed",
+    "accepted_exit_listed",
+    "search_sound",
+    "dup_absorbed",
+    "double_vote_reported",
+    "double_vote_aggregate_reported",
+    "double_vote_aggregate_reported'",
+    "window_rotation",
+    "window_slots",
+    "covers_spec",
+    "covers_spec_needs_wellFormed",
+    "singleParticipant_spec",
+    "onesCount_spec",
+    "bitIndex_spec",
+    "getBit_spec",
+    "select_spec",
+    "select_rawlist_spec_mismatch",
+    "old_first_aggregate_panics",
+    "old_search_after_single_panics",
+    "old_short_bitfield_panics",
+    "old_duplicate_aggregate_stored",
+    "fixed_duplicate_aggregate_absorbed",
+    "old_smsg_slot0_panics",
+    "old_select_missing_member_panics",
+    "old_not_pool_no_panic",
 ]
 
 PROPS["C20"] = dict(
-    module=None,
+    module="Proofs.Properties.C20",
     theorems=["Zrnt.Proofs.C20." + t for t in THEOREMS],
     modes=[dict(name="c20", stateful=True, max_shrinks=4)],
     level="proof",
